@@ -32,10 +32,18 @@ def schema_stream(rng, n: int, wide: bool = True, unions: bool = False, literals
     """yields (fam, ns, T, typing object, SchemaGen)"""
     for i in range(n):
         o = gen.GenOpts(depth=rng.choice([1, 2, 3, 3, 4]), coq_only=not wide, named=wide, unions=unions, literals=literals, any_=any_,
-                        mixin=rng.random() < mixin_rate)
+                        mixin=rng.random() < mixin_rate, configs=wide)
         sg = gen.SchemaGen(rng, o)
         sg.tag = f"w{i}_"
-        t = sg.gen_type()
+        c = rng.random()
+        if wide and c < 0.2:
+            t = sg.dataclass_type(o.depth - 1)
+        elif wide and c < 0.3:
+            t = sg.namedtuple_type(o.depth - 1)
+        elif wide and c < 0.36:
+            t = sg.typeddict_type(o.depth - 1)
+        else:
+            t = sg.gen_type()
         if t.kind == "none":
             t = gen.T("opt", [gen.T("int")])
         fam = sg.fam
